@@ -41,7 +41,7 @@ PROPS = {
                 oracles=[('setsim', 160, 3000)], oracle_props=['C01'], arith=True),
     'C02': dict(title='set-similarity joins return only qualifying pairs, once, with the true score',
                 suites=[('spec', 300, 3000), ('candidates', 60, 800), ('join', 200, 3000)],
-                oracles=[('setsim', 160, 3000)], oracle_props=['C02']),
+                oracles=[('setsim', 160, 3000)], oracle_props=['C02'], arith=True),
     'C03': dict(title='edit-distance join: sound, exact distance, complete up to the documented gap',
                 suites=[('strings', 200, 3000), ('gen', 100, 1000), ('candidates', 60, 800), ('join', 150, 2500, {'which': 'edit_distance'})],
                 oracles=[('ed', 150, 3000)], oracle_props=['C03']),
@@ -57,30 +57,30 @@ PROPS = {
                 oracles=[('filters', 120, 2500)], oracle_props=['C06']),
     'C07': dict(title='a join equals filter_tables followed by apply_matcher',
                 suites=[('spec', 200, 2000), ('join', 100, 1500), ('filter_tables', 80, 1200), ('apply_matcher', 80, 1200)],
-                oracles=[('pipeline', 120, 2500)], oracle_props=['C07']),
+                oracles=[('pipeline', 120, 2500)], oracle_props=['C07'], arith=True),
     'C08': dict(title='missing join values are handled exactly as allow_missing says',
                 suites=[('missing_pairs', 150, 2500), ('join', 150, 2000), ('filter_tables', 80, 1200), ('filter_pair', 60, 800)],
                 oracles=[('setsim', 120, 2000), ('filters', 60, 1000)], oracle_props=['C08']),
     'C09': dict(title='empty token sets are admitted iff allow_empty',
                 suites=[('index', 50, 500), ('join', 150, 2500), ('filter_pair', 100, 1500), ('filter_tables', 80, 1500)],
-                oracles=[('setsim', 120, 2000), ('filters', 80, 1500)], oracle_props=['C09']),
+                oracles=[('setsim', 120, 2000), ('filters', 80, 1500)], oracle_props=['C09'], arith=True),
     'C10': dict(title='results depend only on rows and parameters, not on schedule or presentation',
                 suites=[('split', 200, 3000), ('gen', 60, 500), ('ordering', 40, 400), ('join', 120, 2000, {'n_jobs_choices': (2, 3, -1, 50, 1)}),
                         ('apply_matcher', 60, 800), ('filter_candset', 60, 800)],
-                oracles=[('schedule', 40, 500)], oracle_props=['C10'], real_processes=True),
+                oracles=[('schedule', 40, 500)], oracle_props=['C10'], real_processes=True, arith=True),
     'C11': dict(title='output tables have the documented columns and faithfully project source rows',
                 suites=[('join', 200, 3000), ('filter_tables', 100, 1500), ('missing_pairs', 80, 1000)],
                 oracles=[('setsim', 120, 2000)], oracle_props=['C11']),
     'C12': dict(title='calls leave inputs and tokenizer untouched; no call affects a later one',
                 suites=[('session', 120, 1500), ('join', 80, 1000)], oracles=[('history', 60, 800)], oracle_props=['C12']),
     'C13': dict(title='joins obey transposition, threshold-refinement and operator-partition laws',
-                suites=[('spec', 200, 2000), ('gen', 100, 1000), ('join', 120, 2000)], oracles=[('laws', 60, 1000)], oracle_props=['C13'], datasets=True),
+                suites=[('spec', 200, 2000), ('gen', 100, 1000), ('join', 120, 2000)], oracles=[('laws', 60, 1000)], oracle_props=['C13'], datasets=True, arith=True),
     'C14': dict(title='filters prune what their technique promises to prune',
                 suites=[('gen', 250, 4000), ('candidates', 100, 1500), ('filter_pair', 100, 2000, {'kinds': ['size', 'prefix', 'position', 'overlap']}),
                         ('filter_tables', 100, 1500, {'kinds': ['size', 'prefix', 'position', 'overlap']})],
                 oracles=[('filters', 150, 3000)], oracle_props=['C14'], arith=True),
     'C15': dict(title='invalid arguments are rejected up front; valid ones are never rejected',
-                suites=[('gen', 120, 1000), ('session', 80, 1000), ('join', 100, 1500)],
+                suites=[('gen', 120, 1000), ('session', 80, 1000), ('join', 100, 1500), ('filter_tables', 80, 1200), ('filter_candset', 100, 1500), ('apply_matcher', 100, 1500)],
                 oracles=[('validation', 250, 4000), ('setsim', 60, 600), ('ed', 40, 400)], oracle_props=['C15']),
     'C16': dict(title='numeric-to-string conversion keeps missing values missing and integers integral',
                 suites=[('converter', 300, 5000)], oracles=[('converter', 300, 5000)], oracle_props=['C16']),
@@ -191,21 +191,23 @@ def build_and_audit(pid, tier, log):
     key = tree_hash()
     cache_file = os.path.join(cache_dir, 'build-%s-%s.json' % (pid, key))
     props_file = os.path.join(LEAN, 'SSJ', 'Props', pid + '.lean')
-    if os.path.exists(cache_file) and tier == 'quick' and os.path.exists(os.path.join(LEAN, '.lake', 'build', 'bin', 'driver')):
-        c = json.load(open(cache_file))
-        res.update({k: c[k] for k in ('build_ok', 'axioms', 'broken_build', 'theorems')})
-        res['broken'] += c['broken_build']
-        res['cached'] = True
-        return res
     broken_build = []
     t0 = time.time()
     if tier == 'thorough':
         # thorough: rebuild the property's proof chain from scratch
         sh('rm -rf .lake/build/lib/lean/SSJ/Props .lake/build/lib/lean/SSJ/Proofs .lake/build/ir/SSJ/Props .lake/build/ir/SSJ/Proofs', cwd=LEAN)
+    # the model driver is ALWAYS rebuilt against the regenerated Gen (a no-op when nothing changed)
     rc, out = sh(['lake', 'build', 'driver'], cwd=LEAN, timeout=1800)
     log.append('lake build driver rc=%d %.1fs' % (rc, time.time() - t0))
     if rc != 0:
         broken_build.append({'kind': 'model-build', 'detail': out[-1500:]})
+    if os.path.exists(cache_file) and tier == 'quick' and rc == 0:
+        # proof build + audit results of exactly this tree (sources of /repo, lean/ and the translator) are reused
+        c = json.load(open(cache_file))
+        res.update({k: c[k] for k in ('build_ok', 'axioms', 'broken_build', 'theorems')})
+        res['broken'] += c['broken_build']
+        res['cached'] = True
+        return res
     if not os.path.exists(props_file):
         if os.environ.get('SSJ_DEV_NO_PROPS') != '1':       # development switch only: never set by MANIFEST commands
             broken_build.append({'kind': 'no-props-file', 'detail': props_file})
@@ -266,6 +268,9 @@ def match_known(v, known):
             if case.get('entry') == 'converter' and case.get('mode') == 'series' and case.get('inplace') and \
                     case.get('dtype', '').startswith(('int', 'float')) and any(c is not None for c in case.get('values', [])):
                 return k
+        elif m.get('kind') == 'overlap_filter_pair_empty_string':
+            if case.get('entry') == 'filter' and case.get('kind') == 'overlap' and '' in (case.get('strings') or []) and 'filter_pair' in v.get('what', ''):
+                return k
         elif m.get('kind') == 'tiny_threshold':
             t = case.get('threshold')
             if isinstance(t, float) and 0 < t < float(m['below']):
@@ -286,6 +291,9 @@ def mismatch_known(b, known):
 
 
 # ---------------------------------------------------------------- steps 3-4
+MALFORMED_VIOLATIONS = []
+
+
 def run_suites(pid, tier, seed, stats, log, mult=1):
     import suites as S
     total, bad, per = 0, [], {}
@@ -296,6 +304,8 @@ def run_suites(pid, tier, seed, stats, log, mult=1):
         rng = random.Random('%s-%s-%d' % (pid, name, seed))
         t0 = time.time()
         cases = S.SUITES[name](rng, n, stats, **kw)
+        if pid == 'C15':
+            MALFORMED_VIOLATIONS.extend(S.malformed_accepted(cases))
         k, b = S.run_cases(cases)
         per[name] = {'cases': k, 'mismatches': len(b), 'distinct': len(set(json.dumps(c[0], sort_keys=True) for c in cases)),
                      'nontrivial': sum(1 for c in cases if nontrivial(c[1])), 's': round(time.time() - t0, 1),
@@ -469,6 +479,8 @@ def witness_to_violation(pid, w):
         try:
             res = O.call_join(which, L, R, 'id', 'id', 'attr', 'attr', ts, t, kw)
             out += O.check_setsim_run(which, ts, L, R, 'id', 'id', 'attr', 'attr', t, kw, res, {'C01', 'C02'})
+            if pid == 'C13':
+                out += O.check_laws(which, ts, L, R, 'id', 'id', 'attr', 'attr', t, kw, random.Random(0))
         except Exception as e:      # noqa: BLE001
             out.append(O.viol('C15', 'valid join raised %s' % type(e).__name__, O.join_case(which, ts, L, R, 'id', 'id', 'attr', 'attr', t, kw)))
         if pid in ('C04', 'C14'):
@@ -479,7 +491,8 @@ def witness_to_violation(pid, w):
                     out.append(O.viol('C04', '%sFilter drops a qualifying pair (arithmetic witness %s)' % (kind, (which, t, n, k, o)),
                                       O.filter_case(kind, {'measure': O.MEASURE_OF[which], 'threshold': t}, ts,
                                                     {'ltable': O.frame_to_case(L), 'rtable': O.frame_to_case(R), 'l_key': 'id', 'r_key': 'id', 'l_attr': 'attr', 'r_attr': 'attr'})))
-    return [x for x in out if x['property'] in (pid, 'C01', 'C04')]
+    own = [x for x in out if x['property'] == pid]
+    return own if own else [x for x in out if x['property'] in ('C01', 'C04')]
 
 
 # ---------------------------------------------------------------- replay
@@ -568,6 +581,9 @@ def main():
                 corr_broken.append(m)
         known_hits = []
         viols, per_oracle = run_oracles(pid, tier, seed, stats, log, known_hits=known_hits)
+        for x in MALFORMED_VIOLATIONS:
+            x.update({'oracle': 'malformed-stream', 'seed': seed, 'n': 1})
+        viols += MALFORMED_VIOLATIONS
         for prop, site in known_hits:
             for k in known['findings']:
                 if k['property'] == prop and k['site'].startswith(site.split('(')[0]):
